@@ -587,33 +587,43 @@ FLOATS = ["0.0", "1.5", "-2.25", "1e+16", "3.0", "inf", "nan", "-0.0", "1e-07"]
 
 def gen_vtype(rng, depth=3):
     """Types for constants: every type here can be serialised (no malformed extension types)."""
-    k = rng.randrange(8) if depth <= 0 else rng.randrange(16)
-    if k == 0:
-        return "@qubit"
-    if k == 1:
-        return "@usize"
-    if k in (2, 3):
-        return ["@unit", rng.choice([0, 1, 2, 2, 3])]
-    if k == 4:
-        return rng.choice([["@var", rng.randint(0, 2), rng.choice(["@C", "@A"])], ["@alias", rng.choice(NAMES), rng.choice(["@C", "@A"])]])
-    if k == 5:
-        return ["@opaque", rng.choice(NAMES), rng.choice(["@C", "@A"]), [], rng.choice(EXTS)]
-    if k == 6:
-        return std_type("int", ["@nat", rng.randint(0, 6)])
-    if k == 7:
+    if depth <= 0 or rng.random() < 0.22:
+        k = rng.randrange(9)
+        if k == 0:
+            return "@qubit"
+        if k == 1:
+            return "@usize"
+        if k in (2, 3):
+            return ["@unit", rng.choice([0, 1, 2, 2, 3])]
+        if k == 4:
+            return rng.choice([["@var", rng.randint(0, 2), rng.choice(["@C", "@A"])], ["@alias", rng.choice(NAMES), rng.choice(["@C", "@A"])]])
+        if k == 5:
+            return ["@opaque", rng.choice(NAMES), rng.choice(["@C", "@A"]), [], rng.choice(EXTS)]
+        if k in (6, 7):
+            return std_type("int", ["@nat", rng.randint(0, 6)])
         return rng.choice([std_type("float64"), std_type("string")])
-    if k in (8, 9, 10):
-        return ["@sum", [[gen_vtype(rng, depth - 1) for _ in range(rng.randint(0, 3))] for _ in range(rng.randint(0, 3))]]
-    if k == 11:
-        ins = [gen_vtype(rng, depth - 1) for _ in range(rng.randint(0, 3))]
+    k = rng.randrange(20)
+    row = lambda hi=3: [gen_vtype(rng, depth - 1) for _ in range(rng.randint(0, hi))]  # noqa: E731
+    if k in (0, 1, 2):
+        return ["@sum", [row() for _ in range(rng.randint(0, 3))]]
+    if k in (3, 4, 5):
+        return ["@sum", [row()]]  # tuple shaped
+    if k in (6, 7):
+        return ["@sum", [[], row()]]  # option shaped
+    if k in (8, 9):
+        return ["@sum", [row(2), row(2)]]  # either shaped
+    if k == 10:
+        ins = row()
         perm = list(range(len(ins)))
         rng.shuffle(perm)
         return ["@fn", ins, [ins[i] for i in perm], []]
-    if k == 12:
+    if k in (11, 12, 13):
         return std_type("array", ["@nat", rng.randint(0, 3)], ["@ty", gen_vtype(rng, depth - 1)])
-    if k == 13:
+    if k in (14, 15):
         return std_type("list", ["@ty", gen_vtype(rng, depth - 1)])
-    if k == 14:
+    if k == 16:
+        return std_type("static_array", ["@ty", gen_vtype(rng, depth - 1)])
+    if k == 17:
         nparams = rng.randint(0, 2)
         params = [rng.choice([["@ptype", "@A"], ["@pnat", "@none"], "@pstr"]) for _ in range(nparams)]
         bound = ["@explicit", rng.choice(["@C", "@A"])] if nparams == 0 or rng.random() < 0.5 else ["@from", rng.randrange(nparams)]
@@ -623,7 +633,9 @@ def gen_vtype(rng, depth=3):
             for p in params
         ]
         return ["@ext", td, args]
-    return ["@opaque", rng.choice(NAMES), rng.choice(["@C", "@A"]), [["@ty", gen_vtype(rng, depth - 1)], ["@nat", 3]][: rng.randint(0, 2)], rng.choice(EXTS)]
+    if k == 18:
+        return ["@opaque", rng.choice(NAMES), rng.choice(["@C", "@A"]), [["@ty", gen_vtype(rng, depth - 1)], ["@nat", 3]][: rng.randint(0, 2)], rng.choice(EXTS)]
+    return ["@unit", rng.choice([1, 2, 3, 4])]
 
 
 def _is_std(t, key):
@@ -698,13 +710,9 @@ def gen_value_of(rng, t, depth=3):
 
 
 def gen_value(rng, depth=3):
-    """A random constant-building expression: a random constant type, then a value of it.  About one in
-    eight asks for a static array (whose element type must be copyable, else `ValueError`)."""
-    if rng.random() < 0.12:
-        t = std_type("static_array", ["@ty", gen_vtype(rng, depth - 1)])
-    else:
-        t = gen_vtype(rng, depth)
-    return gen_value_of(rng, t, depth)
+    """A random constant-building expression: a random constant type, then a value of it (a static array
+    asks for a copyable element type, else the real constructor raises `ValueError`)."""
+    return gen_value_of(rng, gen_vtype(rng, depth), depth)
 
 
 # ----------------------------------------------------------------------------- operations (C06, C05)
